@@ -63,7 +63,8 @@ def _sex_word(female):
 
 
 def call_diff(cnarr, tmpdir, method="threshold", ploidy=2, purity=None, male_ref=False, female=None, par=None,
-              filters=None, thresholds=None, tag="c"):
+              filters=None, thresholds=None, tag="c", vcf=None, sample_id=None, normal_id=None, min_variant_depth=20,
+              zygosity_freq=None):
     """`cnvkit.py call` against `call.do_call` on the same written table. -> None or a description of the difference.
     female=None leaves the sample sex to be inferred by both sides."""
     from cnvlib import call, cmdutil
@@ -86,6 +87,14 @@ def call_diff(cnarr, tmpdir, method="threshold", ploidy=2, purity=None, male_ref
         argv += ["--filter", f]
     if thresholds is not None:
         argv.append("-t=" + ",".join(repr(float(t)) for t in thresholds))
+    if vcf:
+        argv += ["-v", vcf, "--min-variant-depth", int(min_variant_depth)]
+        if sample_id is not None:
+            argv += ["-i", sample_id]
+        if normal_id is not None:
+            argv += ["-n", normal_id]
+        if zygosity_freq is not None:
+            argv += ["-z", repr(float(zygosity_freq))]
     try:
         run(argv)
         cli_err = None
@@ -98,7 +107,8 @@ def call_diff(cnarr, tmpdir, method="threshold", ploidy=2, purity=None, male_ref
         if purity and purity < 1.0:
             is_female = cmdutil.verify_sample_sex(arr, None if female is None else _sex_word(female), male_ref, par)
         kw = {} if thresholds is None else {"thresholds": tuple(float(t) for t in thresholds)}
-        res = call.do_call(arr, None, method, ploidy, purity, male_ref, is_female, par, list(filters or []), **kw)
+        varr = cmdutil.load_het_snps(vcf, sample_id, normal_id, int(min_variant_depth), zygosity_freq) if vcf else None
+        res = call.do_call(arr, varr, method, ploidy, purity, male_ref, is_female, par, list(filters or []), **kw)
         tabio.write(res, out_api)
         api_err = None
     except Exception as exc:  # noqa: BLE001
